@@ -163,13 +163,9 @@ def py_proof(run, args):
         run.add_function(f"nunavut_support.py:{f}")
     run.notes["python_primitive_cases"] = len(tasks)
     run.notes["python_vc_generation_s"] = round(_t.time() - t0, 1)
-    res = smt.solve_all(obs)
-    run.add_results(res)
-    # a failed obligation of the Python leg: the bounded native run (py_native) is the replay on the real code
-    run.notes["python_failed_obligations"] = [r.ob.name for r in res if not r.ok][:20]
     for a in sorted(assumed) + KP.ASSUMED_CALLEES:
         run.assume("py: " + a)
-    return [r for r in res if not r.ok]
+    return obs  # solved together with the C obligations (one pool)
 
 
 def py_native(run, args):
@@ -209,6 +205,11 @@ def py_native(run, args):
 def main():
     args = parse_args(PROP)
     run = report.Run(PROP, "proof", "./check C14", args.tier)
+    _T = [time.time()]
+
+    def _phase(name):
+        run.notes.setdefault("phase_seconds", {})[name] = round(time.time() - _T[0], 1)
+        _T[0] = time.time()
     variants = [("any+asserts", {"enable_serialization_asserts": True}),
                 ("little+asserts", {"enable_serialization_asserts": True, "target_endianness": "little"})]
     if args.tier == "thorough":
@@ -222,8 +223,15 @@ def main():
     seen = {}
     for label, opts in variants:
         obs += verify_variant(run, opts, label, seen)
-    res = smt.solve_all(obs)
-    run.add_results(res)
+    _phase("C VC generation")
+    py_obs = py_proof(run, args)
+    _phase("Python VC generation")
+    res_all = smt.solve_all(obs + py_obs)
+    run.add_results(res_all)
+    res = res_all[:len(obs)]
+    _phase("solving")
+    py_failed = [r for r in res_all[len(obs):] if not r.ok]
+    run.notes["python_failed_obligations"] = [r.ob.name for r in py_failed][:20]
     # failed obligations: replay the solver model / search next to it on the real rendered function (ASan+UBSan build)
     wcache = {}
     for r in res:
@@ -273,8 +281,9 @@ def main():
                         "buffer sizes 0..12 x offsets x lengths 0..64 x 4 byte patterns, dirty destinations; every half value; 200000 float32 patterns", n, w is None, "" if w is None else w["why"][:400])
         if w is not None:
             run.fail(report.Failure(f"native[{label},{std}]#c++-bitspan-primitives-agree-with-the-proved-c-primitives", "post", w["why"][:600], {"witness": w}, True))
-    py_failed = py_proof(run, args)
+    _phase("C replay + C++ stand-in")
     py_native(run, args)
+    _phase("Python native stand-in")
     # an undischarged Python obligation is reported with the native run's failing input when that run found one for the same
     # primitive, otherwise as no-failing-input-found (sat) / undecided (unknown)
     seen_py = set()
